@@ -25,15 +25,24 @@ RULE = ("constant-rich type-directed expression trees (literals, arithmetic, ~, 
         "constants that fail to fold inside dead branches (unhashable dict keys, division by zero ...), sameas on equal "
         "constants, environments with a finalize function x autoescape; distinct = template.")
 
-# (environment mode, env autoescape, volatile, run-time autoescape)
-CONFIGS = [("default", False, False, None), ("default", True, False, None),
-           ("default", False, True, True), ("default", False, True, False),
-           ("default", True, True, False), ("default", True, True, True),
-           ("async", True, False, None), ("sandbox", True, False, None), ("noopt", True, False, None)]
+# (environment mode, env autoescape, volatile, run-time autoescape, static {% autoescape %} block value or None)
+CONFIGS = [("default", False, False, None, None), ("default", True, False, None, None),
+           ("default", False, True, True, None), ("default", False, True, False, None),
+           ("default", True, True, False, None), ("default", True, True, True, None),
+           ("async", True, False, None, None), ("sandbox", True, False, None, None), ("noopt", True, False, None, None),
+           # the escaping mode at the expression differs from the environment default
+           ("default", False, False, None, True), ("default", True, False, None, False),
+           ("noopt", False, False, None, True), ("async", True, False, None, False)]
 
 
-def wrap(src, vol):
+def eff_ae(cfgt):
+    return cfgt[1] if cfgt[4] is None else cfgt[4]
+
+
+def wrap(src, vol, blk=None):
     t = "{{ " + src + " }}"
+    if blk is not None:
+        return "{% autoescape " + ("true" if blk else "false") + " %}" + t + "{% endautoescape %}"
     return "{% autoescape yy %}" + t + "{% endautoescape %}" if vol else t
 
 
@@ -104,38 +113,40 @@ def is_closed(e):
 
 def render_variants(e, cfgt, data, rng):
     """the renders the property says must agree; returns list of (label, result)"""
-    mode, ae, vol, y = cfgt
+    mode, ae, vol, y, blk = cfgt
     src = X.to_src(e)
     d = dict(data, yy=y)
     out = []
     env = X.real_env(mode, ae)
-    out.append(("optimized" if mode != "noopt" else "unoptimized", X.real_render(env, wrap(src, vol), d)))
+    out.append(("optimized" if mode != "noopt" else "unoptimized", X.real_render(env, wrap(src, vol, blk), d)))
     if mode == "default":
-        out.append(("unoptimized", X.real_render(X.real_env("noopt", ae), wrap(src, vol), d)))
+        out.append(("unoptimized", X.real_render(X.real_env("noopt", ae), wrap(src, vol, blk), d)))
     acc = {}
     le = lift_leaves(e, acc)
     if acc:
-        out.append(("literals-lifted", X.real_render(env, wrap(X.to_src(le), vol), dict(d, **acc))))
+        out.append(("literals-lifted", X.real_render(env, wrap(X.to_src(le), vol, blk), dict(d, **acc))))
     if not vol:
         cands = [(p, n) for p, n in subexprs(e) if n[0] not in ("C", "N") and is_closed(n)]
         if cands:
             p, n = rng.choice(cands)
             try:
-                val = X.real_env("noopt", ae).compile_expression(X.to_src(n), undefined_to_none=False)()
+                val = X.real_env("noopt", eff_ae(cfgt)).compile_expression(X.to_src(n), undefined_to_none=False)()
                 ok = True
             except Exception:
                 ok = False
             from jinja2 import Undefined
             if ok and not isinstance(val, Undefined):
                 l2 = replace_at(e, p, ("N", "kk"))
-                out.append(("subexpression-lifted:" + X.to_src(n), X.real_render(env, wrap(X.to_src(l2), vol), dict(d, kk=val))))
+                out.append(("subexpression-lifted:" + X.to_src(n), X.real_render(env, wrap(X.to_src(l2), vol, blk), dict(d, kk=val))))
     return out
 
 
 def classify(e, cfgt, label):
     """a specific signature for a disagreement (used to match known findings)"""
-    mode, ae, vol, y = cfgt
+    mode, ae, vol, y, blk = cfgt
     ks = X.kinds(e)
+    if blk is not None:
+        return "C08:static-autoescape-block:" + X.to_src(e)
     if vol:
         return "C08:volatile-constant-output"
     if "sl" in ks and label.startswith("subexpression-lifted") or "sl" in ks and "literals" in label:
@@ -164,11 +175,11 @@ def real_as_const(env, src, ae, vol):
 
 
 def one_case(ctx, e, ds, cfgt, outs, where):
-    mode, ae, vol, y = cfgt
+    mode, ae, vol, y, blk = cfgt
     ev, gen, fold = outs
     src = X.to_src(e)
-    tsrc = wrap(src, vol)
-    case = {"kind": "fold", "expr": src, "mode": mode, "ae": ae, "vol": vol, "y": y, "data_seed": ds, "tree": repr(e)}
+    tsrc = wrap(src, vol, blk)
+    case = {"kind": "fold", "expr": src, "mode": mode, "ae": ae, "vol": vol, "y": y, "blk": blk, "data_seed": ds, "tree": repr(e)}
     f = X.split_fields(ev)
     log = []
     data = X.make_data(random.Random(ds), log)
@@ -177,8 +188,8 @@ def one_case(ctx, e, ds, cfgt, outs, where):
     folded = gen.startswith("C ") or (fold.startswith("K"))
     ks = X.kinds(e)
     ctx.case(sample={"template": tsrc, "autoescape": ae, "model_output": gen[:120]} if folded and len(src) > 25 else None,
-             key=(src, mode, ae, vol, y) if folded and len(ks) >= 3 else None)
-    ctx.count(f"{mode}_ae{int(ae)}_vol{int(vol)}" + ("_opaque" if opaque_any else ""))
+             key=(src, mode, ae, vol, y, blk) if folded and len(ks) >= 3 else None)
+    ctx.count(f"{mode}_ae{int(ae)}_vol{int(vol)}" + ("" if blk is None else f"_block{int(blk)}") + ("_opaque" if opaque_any else ""))
     ok = True
     # ---- oracle on the real engine: all variants agree
     vs = render_variants(e, cfgt, data, ctx.rng)
@@ -193,7 +204,7 @@ def one_case(ctx, e, ds, cfgt, outs, where):
     # ---- K-fold
     if mode != "noopt":
         m = ("K", X.canon_model(X.parse_sx(fold.split(" | ")[0][2:])[0])) if fold.startswith("K") else fold.split(" | ")[0]
-        r = real_as_const(env, src, ae, vol)
+        r = real_as_const(env, src, eff_ae(cfgt), vol)
         if r != m:
             ok = False
             ctx.model_mismatch("K-fold as_const", dict(case, kind="as_const"), repr(m)[:300], repr(r)[:300], None)
@@ -220,14 +231,18 @@ def one_case(ctx, e, ds, cfgt, outs, where):
 
 
 def build_lines(e, ds, cfgt):
-    mode, ae, vol, y = cfgt
-    cfg = X.model_cfg(mode, ae=ae, vol=vol, rtae=bool(y))
+    mode, ae, vol, y, blk = cfgt
+    cfg = X.model_cfg(mode, ae=eff_ae(cfgt), vol=vol, rtae=bool(y))
     sx = X.enc_expr(e)
     data = X.make_data(random.Random(ds), [])
     return [f"eval {cfg} {sx} {X.enc_env(data)}", f"gen {cfg} {sx}", f"fold {cfg} {sx}"]
 
 
+SENS = ("~", [("C", "<a>"), ("F", ("C", "<b>"), "safe", [])])      # an autoescape-sensitive constant
 FIXED = [
+    ("F", ("C", ""), "default", [SENS, ("C", True)]), ("F", ("L", [("C", "x"), ("C", "y")]), "join", [SENS]),
+    ("is", ("C", "<a><b>"), "eq", [SENS]), ("F", ("N", "u0"), "default", [("F", ("L", [("C", "<"), ("F", ("C", ">"), "safe", [])]), "join", [])]),
+    ("is", SENS, "in", [("L", [SENS, ("C", 1)])]), ("call", ("N", "f1"), [SENS], [("p", SENS)]),
     ("~", [("F", ("C", "<b>"), "safe", []), ("C", "<i>")]),
     ("~", [("C", "<"), ("C", "b")]), ("C", "<"), ("B", "add", ("C", "<"), ("C", "b")),
     ("?", ("C", True), ("C", "<"), ("C", 1)), ("sl", ("C", 5), ("C", 1), ("C", 2), None),
@@ -271,6 +286,29 @@ def template_stream(ctx):
         for t in ("{%% if %s is sameas %s %%}same{%% else %%}diff{%% endif %%}" % (a, a), "{{ %s is sameas(%s) }}" % (a, a),
                   "{{ (%s is sameas %s) and 1 }}" % (a, a)):
             out.append(("C08:sameas-constants", [("optimized", {}, t, {}), ("unoptimized", {"optimized": False}, t, {})]))
+    # constant collections through every builtin collection filter, in positions the optimizer folds, then used
+    # by attribute / index / iteration: the folded value must behave like the run-time value (its exact type included)
+    lits = {"rows": ('[{"k": 1, "v": "a"}, {"k": 1, "v": "b"}, {"k": 2, "v": "c"}]', [{"k": 1, "v": "a"}, {"k": 1, "v": "b"}, {"k": 2, "v": "c"}]),
+            "pairs": ('[(2, "b"), (1, "a"), (2, "a")]', [(2, "b"), (1, "a"), (2, "a")]),
+            "map": ('{"b": 2, "a": 1}', {"b": 2, "a": 1}), "words": ('["b", "a", "B", "a"]', ["b", "a", "B", "a"])}
+    chains = {"rows": ['|groupby("k")', '|groupby("k")|list', '|groupby("v")|first', '|sort(attribute="v", reverse=true)', '|unique(attribute="k")|list',
+                       '|map(attribute="v")|list', '|selectattr("k", "eq", 1)|list', '|rejectattr("k", "odd")|list', '|first', '|last', '|reverse|list',
+                       '|batch(2)|list', '|slice(2)|list', '|length', '|sum(attribute="k")', '|min(attribute="k")', '|max(attribute="k")',
+                       '|join(",", attribute="v")', '|tojson', '|list', '|map(attribute="k")|unique|list'],
+              "pairs": ['|groupby(0)', '|groupby(1)|list', '|sort', '|first', '|batch(2)|first', '|map("first")|list', '|unique|list', '|max', '|list'],
+              "map": ['|dictsort', '|dictsort(by="value")', '|items|list', '|list', '|length', '|tojson', '|dictsort|first', '|items|first'],
+              "words": ['|sort', '|unique|list', '|groupby("0")|list', '|map("upper")|list', '|join("-")', '|batch(3, "x")|list', '|select("eq", "a")|list']}
+    uses = ["{{ @ }}", "{% for g in @ %}[{{ g }}|{{ g.grouper }}|{{ g.list }}|{{ g[0] }}|{{ g.k }}|{{ g.v }}|{{ g.key }}]{% endfor %}",
+            "{% set s = @ %}{{ s }}|{{ s[0] }}|{{ s[0].grouper }}|{{ s[0].list }}|{{ s[0].k }}|{{ (s|first).list }}|{{ s.grouper }}",
+            "{{ (@|first).grouper }}|{{ (@|first).k }}|{{ (@|last)[1] }}", "{{ @|map(attribute='grouper')|join(',') }}|{{ @|map(attribute='list')|list }}",
+            "{% if (@)[1].grouper == 2 %}yes{% else %}no{% endif %}", "{% for a, b in @ %}{{ a }}:{{ b }};{% endfor %}"]
+    for kind, (lit, val) in lits.items():
+        for ch in chains[kind]:
+            for use in uses:
+                t = use.replace("@", "(" + lit + ch + ")")
+                tl = use.replace("@", "(kk" + ch + ")")
+                out.append(("C08:folded-collection-filter:" + ch.split("|")[1].split("(")[0],
+                            [("optimized", {}, t, {}), ("unoptimized", {"optimized": False}, t, {}), ("constant-lifted", {}, tl, {"kk": val})]))
     fins = {"none-to-empty": (lambda x: "" if x is None else x), "wrap": (lambda x: "<%s>" % (x,)), "identity": (lambda x: x)}
     for fname, fin in fins.items():
         for ae in (False, True):
@@ -350,7 +388,7 @@ def replay(ctx, data):
         print("replay: names a broken theorem/correspondence:", data.get("broken"))
         return run(ctx)
     e = eval(case["tree"], {"Markup": X._markup()})
-    cfgt = (case["mode"], case["ae"], case["vol"], case["y"])
+    cfgt = (case["mode"], case["ae"], case["vol"], case["y"], case.get("blk"))
     lines = build_lines(e, case["data_seed"], cfgt)
     outs = ctx.driver("expr", lines)
     for ln in outs:
